@@ -339,7 +339,17 @@ class _SimOSPath:
     isfile = lexists = exists
 
     def isdir(self, p):
+        q = norm_path(p).rstrip("/") + "/"
+        return any(k.startswith(q) for k in self._fs.files)
+
+    def islink(self, p):
         return False
+
+    def realpath(self, p, **kw):
+        return norm_path(p)
+
+    def samefile(self, a, b):
+        return norm_path(a) == norm_path(b)
 
     def getsize(self, p):
         return len(self._fs.files[norm_path(p)])
@@ -378,6 +388,40 @@ class SimOS:
     def fsync(self, fd):
         return None
 
+    def stat(self, p, *a, **kw):
+        """A regular file, one hard link, owner-writable - all the simulated disk knows about."""
+        import stat as _stat
+
+        if isinstance(p, int):
+            meta = self._fs.fds.get(p)
+            if meta is None:
+                return self._real.stat(p, *a, **kw)
+            p = meta[0]
+        q = norm_path(p)
+        if q not in self._fs.files:
+            raise FileNotFoundError(errno.ENOENT, "No such file or directory", q)
+        n = len(self._fs.files[q])
+        return self._real.stat_result((_stat.S_IFREG | 0o644, 0, 0, 1, 0, 0, n, 0, 0, 0))
+
+    lstat = stat
+
+    def chmod(self, p, mode, *a, **kw):
+        if norm_path(p) not in self._fs.files:
+            raise FileNotFoundError(errno.ENOENT, "No such file or directory", norm_path(p))
+
+    def access(self, p, mode, *a, **kw):
+        q = norm_path(p)
+        return q in self._fs.files or self.path.isdir(q) or q.count("/") <= 2
+
+    def makedirs(self, p, *a, **kw):
+        return None
+
+    mkdir = makedirs
+
+    def listdir(self, p="."):
+        q = norm_path(p).rstrip("/") + "/"
+        return sorted({k[len(q):].split("/")[0] for k in self._fs.files if k.startswith(q)})
+
     def open(self, path, flags, mode=0o777, **kw):
         p = norm_path(path)
         fs, real = self._fs, self._real
@@ -410,6 +454,79 @@ class SimOS:
         return self._real.fspath(p)
 
 
+class SimShutil:
+    """shutil for the library's modules: whole-file operations on the simulated disk."""
+
+    def __init__(self, fs, real):
+        self._fs, self._real = fs, real
+
+    def __getattr__(self, name):
+        return getattr(self._real, name)
+
+    def copymode(self, src, dst, **kw):
+        for p in (src, dst):
+            if norm_path(p) not in self._fs.files:
+                raise FileNotFoundError(errno.ENOENT, "No such file or directory", norm_path(p))
+
+    copystat = copymode
+
+    def copyfile(self, src, dst, **kw):
+        s_, d_ = norm_path(src), norm_path(dst)
+        if s_ not in self._fs.files:
+            raise FileNotFoundError(errno.ENOENT, "No such file or directory", s_)
+        self._fs._event(None, "copy", len(self._fs.files[s_]))
+        self._fs.files[d_] = self._fs.files[s_]
+        return dst
+
+    copy = copy2 = copyfile
+
+    def move(self, src, dst, **kw):
+        s_, d_ = norm_path(src), norm_path(dst)
+        if s_ not in self._fs.files:
+            raise FileNotFoundError(errno.ENOENT, "No such file or directory", s_)
+        self._fs._event(None, "rename", 0)
+        self._fs.files[d_] = self._fs.files.pop(s_)
+        return dst
+
+
+class SimTempfile:
+    """tempfile for the library's modules: temporary files live on the simulated disk, with deterministic names."""
+
+    def __init__(self, fs, real, sim_os):
+        self._fs, self._real, self._os = fs, real, sim_os
+        self._n = 0
+
+    def __getattr__(self, name):
+        return getattr(self._real, name)
+
+    def _name(self, suffix, prefix, dir):
+        self._n += 1
+        d = norm_path(dir) if dir else "/simtmp"
+        return f"{d.rstrip('/')}/{prefix or 'tmp'}{self._n:04d}{suffix or ''}"
+
+    def mkstemp(self, suffix=None, prefix=None, dir=None, text=False):
+        name = self._name(suffix, prefix, dir)
+        fd = self._os.open(name, self._os.O_RDWR | self._os.O_CREAT | self._os.O_EXCL, 0o600)
+        return fd, name
+
+    def NamedTemporaryFile(self, mode="w+b", buffering=-1, encoding=None, newline=None, suffix=None, prefix=None, dir=None,
+                           delete=True, **kw):
+        name = self._name(suffix, prefix, dir)
+        h = self._fs.open(name, mode if any(c in mode for c in "wax") else "w+")
+        if delete:
+            fs, real_close = self._fs, h.close
+
+            def close():
+                real_close()
+                fs.files.pop(name, None)
+
+            h.close = close
+        return h
+
+    def gettempdir(self):
+        return "/simtmp"
+
+
 class Seams:
     """Installs/restores the module-global ``open`` (and an ``os`` stand-in where the module imports os)
     on the repo's I/O modules."""
@@ -435,8 +552,19 @@ class Seams:
             m.open = self.fs.open
             real_os = m.__dict__.get("os")
             if real_os is not None and not isinstance(real_os, SimOS):
-                self.saved_os.append((m, real_os))
+                self.saved_os.append((m, "os", real_os))
                 m.os = SimOS(self.fs, real_os)
+            import shutil as _real_shutil
+            import tempfile as _real_tempfile
+
+            if m.__dict__.get("shutil") is _real_shutil:
+                self.saved_os.append((m, "shutil", _real_shutil))
+                m.shutil = SimShutil(self.fs, _real_shutil)
+            if m.__dict__.get("tempfile") is _real_tempfile:
+                self.saved_os.append((m, "tempfile", _real_tempfile))
+                import os as _real_os
+
+                m.tempfile = SimTempfile(self.fs, _real_tempfile, SimOS(self.fs, _real_os))
         # pathlib.Path(...).open / read_text / write_text go through Path.open
         import pathlib
 
@@ -459,8 +587,8 @@ class Seams:
                 except AttributeError:
                     pass
         self.saved = []
-        for m, real_os in self.saved_os:
-            m.os = real_os
+        for m, attr, real in self.saved_os:
+            setattr(m, attr, real)
         self.saved_os = []
         if getattr(self, "_path_open", None) is not None:
             import pathlib
